@@ -9,7 +9,7 @@ from .core import (Ptr, NIL, SliceV, NILSLICE, Closure, Iface, StructV, ArrV, ZA
 from .prog import MOD, GB, short
 
 KEYWORDS = ("func", "requires", "ensures", "assigns", "pred", "def", "loop", "invariant", "decreases", "panics",
-            "exits", "inline", "trusted", "let", "calls", "note", "modular")
+            "exits", "inline", "trusted", "let", "calls", "note", "modular", "typeinv")
 
 
 class Clause:
@@ -99,6 +99,13 @@ def parse_contract_file(path, pkgpath, contracts, defs):
             elif kw in ("pred", "def"):
                 n, ps, r, b = vsl.parse_def(st)
                 defs[n] = (ps, r, b, None)
+            elif kw == "typeinv":
+                # typeinv *T <expr over self>: representation invariant of T, assumed at the entry of every method with receiver *T
+                # (object-invariant methodology: established by the constructors and re-established by every method that writes the
+                # fields it mentions - those are ordinary ensures/assigns obligations)
+                tname, _, ex = rest.partition(" ")
+                key = "(*%s.%s)" % (pkgpath, tname.lstrip("*"))
+                defs.setdefault("$typeinv", {}).setdefault(key, []).append(vsl.parse(ex.strip()))
             elif kw == "loop":
                 curloop = int(rest.lstrip("#").split()[0])
                 cur.loops[curloop] = {"invariant": [], "assigns": [], "decreases": None}
